@@ -43,6 +43,7 @@ class FakeWriter:
         sim = self.sim
         k = sim.write_count
         sim.write_count += 1
+        sim.raw_writes.append((self.conn, bytes(b), sim.current_send()))
         if self.closed or self.peer_gone or sim.fail_write_at == k:
             if bytes(b) in sim.packet_ids:
                 sim.emit(f"writeFail {self.conn} {sim.packet_ids[bytes(b)][0]}")
@@ -98,6 +99,9 @@ class Sim:
         self.kind = kind
         self.events = []
         self.event_times = []
+        self.own_sends = 0
+        self.raw_writes = []            # (connection, bytes, send id or '-') of every write, whatever it is
+        self.expected_packets = {}      # send id -> packets a fresh encoder produces for that message (None: it refuses)
         self.close_raised = []
         self.recv_loop_iters = []
         self.stopping = False
@@ -152,6 +156,12 @@ class Sim:
             if mode == "refuse":
                 sim.emit("implFail")
                 raise ConnectionRefusedError("refused")
+            if mode == "unreachable":
+                # failures that are OSErrors but not ConnectionErrors: no route to host / the serial device node is missing
+                sim.emit("implFail")
+                if sim.kind == "waveshare":
+                    raise io_.serial_asyncio.serial.SerialException("could not open port: No such file or directory")
+                raise OSError(113, "No route to host")
             reader = asyncio.StreamReader()
             conn = len(sim.conns) + 1
             for meth in ("readexactly", "readline"):
@@ -277,6 +287,23 @@ class Sim:
                 sim.emit(f"sendBad {getattr(m, '_sid', 0)}")
                 raise
         c._encode_impl = encode_impl
+        # the reconnect task (scheduled after a fault): its life cycle, and the connect() it issues, are events of their own
+        sim.reconn_tasks = set()
+        sim.reconn_connecting = set()
+        if hasattr(c, "_reconnect"):
+            orig_reconnect = c._reconnect
+
+            async def reconnect():
+                t = asyncio.current_task()
+                sim.reconn_tasks.add(t)
+                sim.emit("reconnStart")
+                try:
+                    await orig_reconnect()
+                finally:
+                    sim.reconn_tasks.discard(t)
+                    if not sim.stopping:        # (the harness cancels what is still pending when it tears the loop down)
+                        sim.emit("reconnEnd")
+            c._reconnect = reconnect
         orig_connect = c.connect
 
         async def connect():
@@ -285,16 +312,25 @@ class Sim:
                 sim.emit("connCallInRecv")
                 await orig_connect()
                 return
-            sim.emit("connCall")
+            t = asyncio.current_task()
+            sim.emit("reconnCall" if t in sim.reconn_tasks else "connCall")
+            sim.reconn_connecting.add(t)
             try:
                 await orig_connect()
             finally:
+                sim.reconn_connecting.discard(t)
                 sim.emit("connReturn")
         c.connect = connect
         orig_send = c.send
 
         async def send(m):
-            sid = getattr(m, "_sid", "?")
+            sid = getattr(m, "_sid", None)
+            if sid is None or getattr(m, "_own", False):
+                # a message the client sends by itself (network map seeding; it reuses one object): number every send of it so that
+                # its packets can be attributed
+                sim.own_sends += 1
+                sid = m._sid = 200 + sim.own_sends
+                m._npk, m._own = 1, True
             sim.emit(f"sendCall {sid}")
             sim.send_stack.append(sid)
             try:
@@ -325,7 +361,9 @@ class Sim:
 
         async def traced_sleep(delay, result=None):
             if delay and delay > 0:
-                sim.emit(f"sleep {int(round(delay * 1000))}")
+                t = asyncio.current_task()
+                own = t in sim.reconn_tasks and t not in sim.reconn_connecting     # the reconnect task's own wait, before it calls connect()
+                sim.emit(f"{'reconnSleep' if own else 'sleep'} {int(round(delay * 1000))}")
             return await sim._real_sleep(delay, result)
         asyncio.sleep = traced_sleep
 
@@ -349,6 +387,15 @@ class Sim:
             return          # the peer has already closed / reset this link
         self.emit(f"envFeed {k}")
         r.feed_data(data)
+
+    def busy(self, conn=None):
+        """the EByte gateway refuses service on an established link: it sends the 13 bytes 'Sorry,Limited'"""
+        k = (self.conns[-1] if conn is None else self.conns[conn - 1])[0]
+        r = self.reader(conn)
+        if r._eof or r.exception() is not None:
+            return
+        self.emit(f"envReadErr {k}")       # for the model: a fault of this link
+        r.feed_data(b"Sorry,Limited")
 
     def eof(self, conn=None, gone=False):
         k = (self.conns[-1] if conn is None else self.conns[conn - 1])[0]
